@@ -133,7 +133,7 @@ def dyn_item(item):
     else:
         combos = [(syskind, statekind)]
 
-    def runner(vname):
+    def runner(vname, inspect=False):
         v = K.UNITARIES[vname](d)
         op = K.coupling(ev, v)
         if method == "tempo":
@@ -141,6 +141,19 @@ def dyn_item(item):
         if method == "mf":
             return {c: K.run_mf(op, d, v, c[0], c[1], mem, unique, eps) for c in combos}
         pt = K.build_pt(op, mem, unique, eps)
+        if inspect:
+            # the user looks at the raw (eigenbasis) tensors and at the transformed ones before using the process tensor,
+            # and again between uses: reading must not change what the object computes
+            raw = [pt.get_mpo_tensor(k, transformed=False) for k in range(len(pt))]
+            out = {}
+            for i, c in enumerate(combos):
+                out[c] = K.run_pt(pt, d, v, c[0], c[1])
+                if i == 0:
+                    [pt.get_mpo_tensor(k) for k in range(len(pt))]
+                    raw2 = [pt.get_mpo_tensor(k, transformed=False) for k in range(len(pt))]
+                    if any(a.shape != b.shape or not np.array_equal(a, b) for a, b in zip(raw, raw2)):
+                        raise RuntimeError("raw MPO tensors read twice from one process tensor differ")
+            return out
         return {c: K.run_pt(pt, d, v, c[0], c[1]) for c in combos}
 
     K.take_retries()
@@ -161,7 +174,7 @@ def dyn_item(item):
         changed = float(np.abs(op - np.diag(np.asarray(ev, dtype=float))).max())
         base = f"dyn|{method}|d{d}|{op_class(op)}|{ev_class(ev)}"
         try:
-            got = runner(vname)
+            got = runner(vname, inspect=(method == "pt" and list(K.UNITARY_ORDER).index(vname) % 2 == 1))
         except Exception as ex:  # noqa
             for c in combos:
                 recs.append({"key": [method, list(ev), mem, unique, eps, c[0], c[1], vname], "dev": None,
